@@ -35,6 +35,10 @@ def parse_answer(T):
         return ("notreg",)
     if kind == "base":
         return ("base", T.vec())
+    if kind == "wvec":
+        return ("wvec", T.vec())
+    if kind == "wmat":
+        return ("wmat", T.mat())
     raise ValueError(kind)
 
 
@@ -43,7 +47,7 @@ def parse_digest(toks):
     out = []
     while T.i < len(T.t):
         out.append(parse_answer(T))
-    return out   # [A, K, base, bounds, sc, src, rc, insys]
+    return out   # [A, K, base, bounds, sc, src, rc, insys, targets, weights]
 
 
 def run(R):
@@ -51,11 +55,16 @@ def run(R):
     quick = R.tier == "quick"
     R.rule = ("histories over the alphabet {register_system, register_bounds, register_adaptation, register_baseline, "
               "register_background_adaptation(add/replace), register_system_adaptation(add/replace), register_targets} with two "
-              "argument choices each: exhaustive up to length %d, random of length 5-%d beyond; read-only query bundles (captures, "
+              "argument choices each (register_targets: four -- two target sets without importance weights, one with per-filter "
+              "weights W, one with per-sample-and-filter weights W; the target sets hold targets outside the gamut, so the "
+              "weighting decides the fit); default or per-filter constructor weights w: exhaustive up to length %d, random of "
+              "length 5-%d beyond; read-only query bundles (captures, "
               "gamut tests, ranges, seeded sampling, fits with explicit targets) interleaved at random. After EVERY step the "
-              "estimator's A, K, baseline, bounds, system captures, relative captures and in_system are compared with the Lean "
-              "state machine (exact rationals); at the end of every history the engine-backed queries are compared with a fresh "
-              "twin estimator holding the same registered values; caller arrays are hashed around every call. Non-trivial: the "
+              "estimator's A, K, baseline, bounds, system captures, relative captures, in_system, registered targets and fitting weights W are compared with the Lean "
+              "state machine (exact rationals); at the end of every history the engine-backed queries -- including fit() of the "
+              "registered targets with the registered weights -- are compared with a fresh "
+              "twin estimator holding the same registered values (the values the harness registered last: sources, bounds, K, "
+              "baseline, targets AND their weights); caller arrays are hashed around every call. Non-trivial: the "
               "history contains a re-registration or a query between two registrations." % (2 if quick else 3, 12 if quick else 25))
     rng0 = R.rng(0)
     nf, nd = 3, 6
@@ -69,8 +78,16 @@ def run(R):
     B1 = dyadic(rng0, 1, 8, 2, size=(3, nf)); B2 = dyadic(rng0, 1, 8, 2, size=(2, nf))
     px = dyadic(rng0, 0.25, 1.5, 2, size=4); psig = dyadic(rng0, 0, 2, 2, size=(2, nd))
     Bprobe = dyadic(rng0, 1, 10, 2, size=(3, nf))
+    # some targets far from the gamut (chromatically extreme): only then do importance weights decide the fit
+    B1 = B1.copy(); B2 = B2.copy(); Bprobe = Bprobe.copy()
+    B1[:, 0] *= 8.0; B2[:, nf - 1] *= 8.0; Bprobe[0, 1] *= 8.0
+    Wf = np.array([1.0, 8.0, 0.0625])[rng0.permutation(nf)]            # per-filter importance weights, far from uniform
+    W2 = dyadic(rng0, 0.0625, 8, 4, size=(3, nf))                      # per-sample-and-filter weights (for the 3 targets of B1)
+    w0vec = np.array([4.0, 0.25, 1.0])[rng0.permutation(nf)]           # constructor weights `w` (default for targets registered without W)
+    TGT = [(B1, None), (B2, None), (B2, Wf), (B1, W2)]
+    reg = {}   # what the harness registered last (targets and their weights), for the twin
     ALPHA = [("sys", 0), ("sys", 1), ("bnd", 0), ("bnd", 1), ("adp", 0), ("adp", 1), ("bas", 0), ("bas", 1),
-             ("bga", 0), ("bga", 1), ("sya", 0), ("sya", 1), ("tgt", 0), ("tgt", 1)]
+             ("bga", 0), ("bga", 1), ("sya", 0), ("sya", 1), ("tgt", 0), ("tgt", 1), ("tgt", 2), ("tgt", 3)]
 
     def ns_of(est):
         return est.A.shape[1] if hasattr(est, "A") else 4
@@ -103,8 +120,14 @@ def run(R):
             x = x[:n]
             est.register_system_adaptation(x.copy(), add_baseline=ab, add=add); return "sya %s %d %d" % (vs(x), ab, add)
         if op == "tgt":
-            B = B1 if arg == 0 else B2
-            est.register_targets(B.copy()); return "tgt " + ms(B)
+            B, W = TGT[arg]
+            if W is None:
+                est.register_targets(B.copy())
+            else:
+                est.register_targets(B.copy(), W=W.copy())
+            reg["tgt"] = (B, W)
+            # the state machine stores the targets and the fitting weights (given W, or the constructor's w when W is not given)
+            return "tgt " + ms(B) + (" none" if W is None else (" vec " + vs(W)) if W.ndim == 1 else (" mat " + ms(W)))
         raise ValueError(op)
 
     def impl_digest(est):
@@ -116,6 +139,8 @@ def run(R):
             d["lb"] = est.lb.copy(); d["ub"] = est.ub.copy()
             d["sc"] = est.system_capture(px[:n]); d["src"] = est.system_relative_capture(px[:n]); d["insys"] = est.in_system(px[:n])
         d["rc"] = est.relative_capture(psig)
+        d["targets"] = np.array(est.target_B, copy=True) if hasattr(est, "target_B") else None
+        d["W"] = np.array(est.W, copy=True)
         return d
 
     def query_bundle(est, rng):
@@ -157,15 +182,19 @@ def run(R):
                 out["range"] = np.asarray([lo, hi])
         if hasattr(est, "B"):
             out["in_hull_registered"] = np.asarray(est.in_hull())
+            # fit of the registered targets with the registered weights (last: fit() replaces est.B by the fitted captures)
+            est.fit(solver="CLARABEL")
+            out["fit_registered"] = np.asarray(est.B, dtype=float).copy()
         return out
 
-    def twin_of(est):
-        kw = {}
+    def twin_of(est, w0):
+        kw = {} if w0 is None else dict(w=w0.copy())
         if hasattr(est, "A"):
-            kw = dict(sources=np.array(est.sources, copy=True), lb=est.lb.copy(), ub=est.ub.copy())
+            kw.update(sources=np.array(est.sources, copy=True), lb=est.lb.copy(), ub=est.ub.copy())
         t = dreye.ReceptorEstimator(filt.copy(), domain=1.0, K=np.array(est.K, copy=True), baseline=np.array(est.baseline, copy=True), **kw)
-        if hasattr(est, "target_B"):
-            t.register_targets(est.target_B.copy())
+        if "tgt" in reg:
+            B, W = reg["tgt"]
+            t.register_targets(B.copy(), W=(None if W is None else W.copy()))
         return t
 
     histories = []
@@ -184,7 +213,9 @@ def run(R):
             continue
         rng = R.rng(3, hi)
         start_registered = bool(rng.integers(2))
-        est = dreye.ReceptorEstimator(filt.copy(), domain=1.0, K=1.0, baseline=0.0)
+        reg.clear()
+        w0 = w0vec if (hk == "rand" and rng.integers(3) == 0) or (hk == "ex" and hi % 4 == 1) else None
+        est = dreye.ReceptorEstimator(filt.copy(), domain=1.0, K=1.0, baseline=0.0, **({} if w0 is None else dict(w=w0.copy())))
         texts = []
         digests = []
         problems = []
@@ -210,21 +241,24 @@ def run(R):
                     if st != "assertion":
                         problems.append("%s without a registered system did not assert (%s)" % (op, st))
                     # protocol text for the model (it answers `assert`)
-                    dummy = {"bnd": "bnd 0 0", "sya": "sya %s 1 0" % vs(x1), "tgt": "tgt " + ms(B1)}[op]
+                    dummy = {"bnd": "bnd 0 0", "sya": "sya %s 1 0" % vs(x1), "tgt": "tgt " + ms(B1) + " none"}[op]
                     texts.append(dummy); digests.append(("assert", None))
                     continue
                 texts.append(apply_impl(est, op, arg))
                 digests.append(("ok", impl_digest(est)))
             eng = engine_digest(est) if (hk == "rand" or hi % 5 == 0) else None
-            eng_twin = engine_digest(twin_of(est)) if eng is not None else None
+            eng_twin = engine_digest(twin_of(est, w0)) if eng is not None else None
         except Exception as e:  # noqa: BLE001
             err = "%s: %s" % (type(e).__name__, str(e)[:200])
             eng = eng_twin = None
-        R.driver.ask(k, "hist", ms(filt), "step 1 1", "vec " + vs(np.array([1.0])), vs(np.array([0.0])), vs(px), ms(psig), len(texts), " ".join(texts))
+        R.driver.ask(k, "hist", ms(filt), "step 1 1", "vec " + vs(np.array([1.0])), vs(np.array([0.0])), vs(np.ones(nf) if w0 is None else w0), vs(px), ms(psig), len(texts), " ".join(texts))
         ops_named = [a for a, _ in (([("sys", 0)] if start_registered else []) + hist)]
         rereg = len(set(ops_named)) < len(ops_named)
         jobs.append((k, hk, hist, start_registered, digests, problems, err, eng, eng_twin, rereg or queried_between))
-        R.count("history:%s" % hk); R.count("length:%d" % len(hist))
+        R.count("history:%s" % hk); R.count("length:%d" % len(hist)); R.count("constructor_w:%s" % ("default" if w0 is None else "per-filter"))
+        if eng is not None and "tgt" in reg:
+            R.count("registered_targets_at_end:%s,%s" % ("weights " + ("none" if reg["tgt"][1] is None else "%dD" % reg["tgt"][1].ndim),
+                                                      "some outside gamut" if ("in_hull_registered" in eng and not np.all(eng["in_hull_registered"])) else "all inside"))
     R.driver.run()
     for k, hk, hist, start_registered, digests, problems, err, eng, eng_twin, nontriv in jobs:
         c = dict(k=k, kind=hk, start_registered=start_registered, history=["%s/%d" % (a, b) for a, b in hist])
@@ -246,7 +280,7 @@ def run(R):
                 if toks[0] != tag:
                     mismatch = "step %d: model says %s, code %s" % (si, toks[0], tag)
                 continue
-            A_m, K_m, base_m, bnds_m, sc_m, src_m, rc_m, ins_m = parse_digest(toks[1:])
+            A_m, K_m, base_m, bnds_m, sc_m, src_m, rc_m, ins_m, tg_m, w_m = parse_digest(toks[1:])
 
             def cmp_vec(name, impl, model, scale=None):
                 impl = np.asarray(impl, dtype=float).ravel()
@@ -278,6 +312,16 @@ def run(R):
                             checks.append("ub = %s, model %s" % (d["ub"].tolist(), [None if u is None else float(u) for u in ubm])); break
                     if list(np.asarray(d["insys"]).astype(bool)) != ins_m[1][:n]:
                         checks.append("in_system = %s, model %s" % (d["insys"], ins_m[1]))
+            # registered targets and fitting weights (register_targets(B, W): W, or the constructor's w when W is not given)
+            if (d["targets"] is None) != (tg_m[0] == "notreg"):
+                checks.append("targets registered: code %s, model %s" % (d["targets"] is not None, tg_m[0] != "notreg"))
+            elif d["targets"] is not None:
+                checks.append(cmp_vec("registered targets", d["targets"], tg_m[1]))
+            Wi = np.asarray(d["W"], dtype=float)
+            if (Wi.ndim == 2) != (w_m[0] == "wmat"):
+                checks.append("fitting weights W have %d dims, model says %s" % (Wi.ndim, w_m[0]))
+            else:
+                checks.append(cmp_vec("fitting weights W", Wi, w_m[1]))
             bb = np.atleast_1d(d["base"]).astype(float)
             if len(bb) != len(base_m[1]) or any(F(a) != b for a, b in zip(bb, base_m[1])):
                 checks.append("baseline = %s, model %s" % (bb.tolist(), [float(v) for v in base_m[1]]))
@@ -291,7 +335,7 @@ def run(R):
         if eng is not None and eng_twin is not None:
             for key in eng:
                 a, b = eng[key], eng_twin.get(key)
-                tol = 1e-5 if key in ("fit_pred",) else (1e-9 if key == "range" else 0)
+                tol = 1e-5 if key in ("fit_pred", "fit_registered") else (1e-9 if key == "range" else 0)
                 same = b is not None and a.shape == b.shape and (np.array_equal(a, b) if tol == 0 else np.allclose(a, b, rtol=0, atol=tol * (np.max(np.abs(a)) + 1)))
                 if not same:
                     R.failB(dict(c, query=key, after_history=a, fresh_twin=b), "`%s` after this history differs from a fresh estimator with the same registered values" % key, sig + ":history-dependence:" + key)
